@@ -54,9 +54,9 @@ theorem plural_last (r : Registry) (n : String) (h : r.lookupWithPrefix n = none
   cases stripS n <;> rfl
 
 /-- the previous answer shadows the database for `ans`, `ANS`, `_` only -/
-theorem ctx_lookup_database (c : Ctx) (n : String) (h1 : n ≠ "ans") (h2 : n ≠ "ANS") (h3 : n ≠ "_") :
-    c.lookup n = c.reg.lookup n := by
-  simp [Ctx.lookup, h1, h2, h3]
+theorem ctx_lookup_database (c : Ctx) (n : String) (h1 : n ≠ "ans") (h2 : n ≠ "ANS") (h3 : n ≠ "_")
+    (ht : c.temporaries n = none) : c.lookup n = c.reg.lookup n := by
+  simp [Ctx.lookup, h1, h2, h3, ht]
 
 /-- resolution is a function of the registry value (determinism) -/
 theorem lookup_deterministic (r₁ r₂ : Registry) (n : String)
